@@ -38,6 +38,14 @@ def law_pairs(r, base, obj, caps, base_vals):
         out.append(('nested_slices', Node('get', (s2,), [Node('get', (s1,), [clone(base)])]),
                     lambda vals, s1=s1, s2=s2: vals[slice(*s1[1:])][slice(*s2[1:])]))
         out.append(('map_slice', Node('get', (s1,), [Node('map', (f,), [clone(base)])]), Node('map', (f,), [Node('get', (s1,), [clone(base)])])))
+        # ... also for a PARTIAL function: both sides evaluate exactly the selected examples, so an example outside the selection on
+        # which the function raises shows on neither side
+        ints = [v for v in base_vals if isinstance(v, int) and not isinstance(v, bool)]
+        if ints:
+            bad = tuple(sorted(set(r.sample(ints, r.randint(1, min(3, len(ints)))))))
+            pf = ('FRaiseIf', ('PIn', bad), r.choice(['EFilter', 'EValue', '(EUser 0)']), 5, f)
+            s4 = ('slice', r.choice([None, 1, 2, 3, -2]), r.choice([None, None, -1, n]), r.choice([None, 1, 1, 1, 2]))
+            out.append(('map_slice_partial', Node('get', (s4,), [Node('map', (pf,), [clone(base)])]), Node('map', (pf,), [Node('get', (s4,), [clone(base)])])))
         seed = r.randint(0, 10 ** 6)
         out.append(('map_shuffle', Node('shuffle', (seed,), [Node('map', (f,), [clone(base)])]), Node('map', (f,), [Node('shuffle', (seed,), [clone(base)])])))
         rev = r.random() < 0.5
@@ -77,7 +85,7 @@ def run(tier):
     ld = common.import_impl()
     r = common.rng_for('C16')
     g = gen_a.Gen(r, ld, err_rate=0.0, malformed=0.0, structured=0.15)
-    nbase = 160 if tier == 'quick' else 2500
+    nbase = 160 if tier == 'quick' else 1800
     nodes, pairs, failures = [], [], []
     laws = collections.Counter()
     for _ in range(nbase):
@@ -95,8 +103,11 @@ def run(tier):
         bk0, bi0 = key_obs(obj)
         if bk0 == 'refused' and bi0 != 'refused':
             bk0 = [k for k, _ in bi0]
-        base_keys_unique = bk0 == 'refused' or len(set(bk0)) == len(bk0)
+        has_dict = any(nd.op == 'dict' for nd in model_a._walk(base))
+        base_keys_unique = (bk0 == 'refused' and not has_dict) or (bk0 != 'refused' and len(set(bk0)) == len(bk0))
         for (law, lhs, rhs) in law_pairs(r, base, obj, caps, base_vals):
+            if law in ('map_cache_eager', 'cache_eager_identity') and not base_keys_unique:
+                continue          # eager caching goes through items(): duplicate keys are outside the law (cf. known finding F15)
             laws[law] += 1
             try:
                 lo = gen_a.build_impl(lhs, ld)
@@ -141,6 +152,12 @@ def run(tier):
                 if repr(lk) != repr(rk) or repr(li) != repr(ri):
                     ok = False
                     lv, rv = ('keys', lk, 'items', li), ('keys', rk, 'items', ri)
+            if not ok and not base_keys_unique and 'items' in set(base.ops()) and any(isinstance(x, tuple) and x[0] == 'refused' and x[1] in ('AssertionError', 'NotImplementedError') or
+                                                                                   (isinstance(x, tuple) and len(x) > 1 and isinstance(x[1], tuple) and x[1] and x[1][0] in ('EAssert', 'ENotImpl')) for x in (lv, rv)):
+                # known finding F15 (items() over duplicate keys cannot be indexed): a law instance built on such a base inherits it
+                failures.append(dict(kind='program', finding_id='F15', summary='items() over duplicate / undefined keys: indexable is True but an integer index raises AssertionError / NotImplementedError (keys() is needed)',
+                                     program=lhs.to_json(), coq_prog=gen_a.coq_prog(lhs), want=['iter'], law=law))
+                continue
             if not ok:
                 failures.append(dict(kind='program', summary=f'law {law} fails on the implementation: lhs={gen_a.coq_prog(lhs)[:200]} -> {lv!r} ; rhs -> {rv!r}'[:600],
                                      program=lhs.to_json(), coq_prog=gen_a.coq_prog(lhs), want=['iter', 'index'], law=law))
